@@ -78,6 +78,41 @@ theorem C20_enumerate_exact (bytes : Bytes) (cfg : Config) (hm : 1 ≤ cfg.minLe
   obtain ⟨fs, h1, h2, h3⟩ := C20_enum_from (bytes := bytes) (cfg := cfg) hm hn (bytes.size + 2) 0 (Nat.zero_le _) (fun _ => Or.inl rfl) (by omega)
   exact ⟨fs, h1, fun g => by rw [h2 g]; simp, h3⟩
 
+/-- **The executable reference is exact.**  `specAll` (Spec/Strings.lean: for every start position the maximal
+printable run there, kept when it meets the threshold of its termination kind and the NUL policy) is what the driver
+prints as `spec=` and what the oracle holds the implementation's answer against.  It lists exactly the qualifying runs
+(for EVERY configuration), and for thresholds ≥ 1 the enumerator's answer is that very list — same runs, same order. -/
+theorem C20_specAll_exact (bytes : Bytes) (cfg : Config) (hm : 1 ≤ cfg.minLen) (hn : 1 ≤ cfg.minLenNul) :
+    (∀ g, g ∈ specAll bytes cfg ↔ Qualifies bytes cfg g) ∧
+    enumAll bytes cfg (bytes.size + 2) 0 = .ok (specAll bytes cfg) := by
+  refine ⟨mem_specAll bytes cfg, ?_⟩
+  obtain ⟨fs, h1, h2, h3⟩ := C20_enumerate_exact bytes cfg hm hn
+  rw [h1]
+  congr 1
+  apply sorted_ext (fun g => g.start) fs (specAll bytes cfg) (h3.imp (by intro a b h; omega))
+    (specAll_sorted bytes cfg)
+  intro g
+  rw [h2, mem_specAll]
+
+/-- … the membership half needs no hypothesis on the thresholds, and the reference is in ascending order -/
+theorem C20_specAll_qualifies (bytes : Bytes) (cfg : Config) :
+    (∀ g, g ∈ specAll bytes cfg ↔ Qualifies bytes cfg g) ∧
+    (specAll bytes cfg).Pairwise (fun a b => a.start < b.start) :=
+  ⟨mem_specAll bytes cfg, specAll_sorted bytes cfg⟩
+
+/-- the repository's test vector (thresholds 3, not strict): reference and enumerator -/
+example : specAll #[0x1f, 0x43, 0x2d, 0x53, 0x54, 0x00, 0x80, 0x41, 0x41, 0x41, 0xff] ⟨3, 3, false⟩ =
+      [⟨1, 4, true⟩, ⟨7, 3, false⟩] ∧
+    enumAll #[0x1f, 0x43, 0x2d, 0x53, 0x54, 0x00, 0x80, 0x41, 0x41, 0x41, 0xff] ⟨3, 3, false⟩ 13 0 =
+      .ok (specAll #[0x1f, 0x43, 0x2d, 0x53, 0x54, 0x00, 0x80, 0x41, 0x41, 0x41, 0xff] ⟨3, 3, false⟩) := by
+  decide +kernel
+
+/-- The thresholds matter for the second half: with `min_length_nul = 0` the enumerator reports the EMPTY run in front
+of a NUL (`Found { string: b"", .. }`), which is no run of printable bytes at all (`Qualifies` wants length ≥ 1) and
+which the reference does not list. -/
+example : enumAll #[0x00] ⟨1, 0, false⟩ 3 0 = .ok [⟨0, 0, true⟩] ∧ specAll #[0x00] ⟨1, 0, false⟩ = [] := by
+  decide +kernel
+
 /-- Each `next` resumes directly after the terminator of the previous run (or at the end of the
 buffer when the run was ended by it), and the reported string lies at `start`. -/
 theorem C20_next_resumes (bytes : Bytes) (cfg : Config) (hm : 1 ≤ cfg.minLen) (hn : 1 ≤ cfg.minLenNul)
@@ -108,6 +143,122 @@ theorem C20_reported_bytes_printable (bytes : Bytes) (cfg : Config) (hm : 1 ≤ 
   rw [h] at h1'; cases h1'
   have hq := (h2' f).mp hf
   exact ⟨by have := hq.2.1; omega, hq.2.2.1 j h1 h2⟩
+
+/-! ### `Enumerator.offset` is a `u32` (strings.rs:95,101,110: `self.offset = (i + 1) as u32`)
+
+`next` / `enumAll` above keep the offset as a natural number; `nextT` / `enumAllT` / `addressT` (Model/Strings.lean) are
+the code AS WRITTEN, casts included. -/
+
+/-- **Below 4 GiB the casts change nothing**: the transition with `as u32` IS the transition without, as functions —
+hence so is everything computed from it (`collect`, `nth`, `count`, clones: they are loops over `next`) — and the
+address computed from `start as u32` is the address computed from `start` (for every buffer).  `bytes.size < 2^32` is
+the model's global bound on buffers, stated here explicitly as C14 and C19 state theirs. -/
+theorem C20_offset_fits (bytes : Bytes) (cfg : Config) (hsz : bytes.size < 2 ^ 32) :
+    nextT bytes cfg = next bytes cfg ∧
+    (∀ fuel off, enumAllT bytes cfg fuel off = enumAll bytes cfg fuel off) ∧
+    (∀ base f, addressT base f = address base f) := by
+  have h := nextT_eq_next bytes cfg hsz
+  refine ⟨h, fun fuel off => ?_, addressT_eq⟩
+  unfold enumAllT
+  rw [h, enumAll_eq_itemsW]
+
+/-- **C20, main statement, for the enumerator as written** (`u32` offset field), with the bound explicit. -/
+theorem C20_enumerate_exact_u32 (bytes : Bytes) (cfg : Config) (hsz : bytes.size < 2 ^ 32)
+    (hm : 1 ≤ cfg.minLen) (hn : 1 ≤ cfg.minLenNul) :
+    ∃ fs, enumAllT bytes cfg (bytes.size + 2) 0 = .ok fs ∧
+      (∀ g, g ∈ fs ↔ Qualifies bytes cfg g) ∧
+      fs.Pairwise (fun a b => a.start + a.len < b.start) ∧ fs = specAll bytes cfg := by
+  obtain ⟨fs, h1, h2, h3⟩ := C20_enumerate_exact bytes cfg hm hn
+  refine ⟨fs, by rw [(C20_offset_fits bytes cfg hsz).2.1]; exact h1, h2, h3, ?_⟩
+  have := (C20_specAll_exact bytes cfg hm hn).2
+  rw [h1] at this
+  cases this
+  rfl
+
+/-- `C20_next_resumes` for the transition as written, with the bound explicit. -/
+theorem C20_next_resumes_u32 (bytes : Bytes) (cfg : Config) (hsz : bytes.size < 2 ^ 32)
+    (hm : 1 ≤ cfg.minLen) (hn : 1 ≤ cfg.minLenNul)
+    (off : Nat) (hoff : off < bytes.size) (hb : Bnd bytes off) (f : Found) (off' : Nat)
+    (h : nextT bytes cfg off = some (f, off')) :
+    Qualifies bytes cfg f ∧ off ≤ f.start ∧
+    (off' = f.start + f.len + 1 ∨ (off' = f.start + f.len ∧ off' = bytes.size)) := by
+  rw [(C20_offset_fits bytes cfg hsz).1] at h
+  exact C20_next_resumes bytes cfg hm hn off hoff hb f off' h
+
+/-- instance of the hypotheses (the repository's test vector; offset 6 is a run boundary: byte 5 is the NUL) -/
+example :
+    let b : Bytes := #[0x1f, 0x43, 0x2d, 0x53, 0x54, 0x00, 0x80, 0x41, 0x41, 0x41, 0xff]
+    b.size < 2 ^ 32 ∧ 6 < b.size ∧ Bnd b 6 ∧ nextT b ⟨3, 3, false⟩ 6 = some (⟨7, 3, false⟩, 11) ∧
+    enumAllT b ⟨3, 3, false⟩ 13 0 = .ok [⟨1, 4, true⟩, ⟨7, 3, false⟩] := by
+  refine ⟨by decide, by decide, Or.inr (by decide +kernel), by decide +kernel, by decide +kernel⟩
+
+/-- **The bound is needed: at 4 GiB the stored offset wraps.**  On ANY buffer of exactly 2^32 bytes that is one run
+of 2^32 − 1 letters `A` ended by a NUL, the first `next` reports that run and stores `(i + 1) as u32` = 2^32 as u32 =
+**0**: the enumerator as written is back at its initial state, reports the same run again on every call, and
+`collect()` / `for` never terminate (`diverge` for every fuel) — while the transition without the cast moves to the
+end of the buffer and the enumeration is the single run.  (Such a buffer exists — see the example below — but cannot
+be sent through the line protocol; this is why C20, C03 and C18 are claimed for buffers below 4 GiB.) -/
+theorem C20_offset_wraps_at_4GiB (bytes : Bytes) (cfg : Config) (hm : 1 ≤ cfg.minLen) (hn : 1 ≤ cfg.minLenNul)
+    (hcfg : cfg.minLenNul ≤ 255) (hsz : bytes.size = 4294967296)
+    (hrun : ∀ j, j < 4294967295 → byteAt bytes j = 0x41) (hnul : byteAt bytes 4294967295 = 0) :
+    next bytes cfg 0 = some (⟨0, 4294967295, true⟩, 4294967296) ∧
+    nextT bytes cfg 0 = some (⟨0, 4294967295, true⟩, 0) ∧
+    (∀ fuel, enumAllT bytes cfg fuel 0 = .diverge) ∧
+    enumAll bytes cfg (bytes.size + 2) 0 = .ok [⟨0, 4294967295, true⟩] := by
+  have hq0 : Qualifies bytes cfg ⟨0, 4294967295, true⟩ := by
+    refine ⟨by simp only; omega, by simp only; omega, ?_, .inl rfl, .inl ⟨by simp only; omega, ?_, rfl, by simp only; omega⟩⟩
+    · intro j _ hj
+      rw [hrun j (by simp only at hj; omega)]
+      decide
+    · simpa using hnul
+  have hnext : next bytes cfg 0 = some (⟨0, 4294967295, true⟩, 4294967296) := by
+    have hpost := scan_post hm hn 0 0 (Nat.le_refl _) (Nat.zero_le _) (.inl rfl) (AllP_empty bytes 0)
+    unfold next
+    cases hscan : scan bytes cfg 0 0 with
+    | none =>
+      rw [hscan] at hpost
+      exact (hpost _ hq0 (Nat.zero_le _)).elim
+    | some p =>
+      obtain ⟨f, off'⟩ := p
+      rw [hscan] at hpost
+      obtain ⟨hq, _, hle, _, hle', _, huniq⟩ := hpost
+      have hlen := hq.1
+      have hf : (⟨0, 4294967295, true⟩ : Found) = f := huniq _ hq0 (Nat.zero_le _) (by simp only; omega)
+      subst hf
+      rcases scan_off bytes cfg 0 0 _ off' (Nat.le_refl _) hscan with h | h
+      · simp only at h; rw [h.1]
+      · simp only at h; omega
+  have hT : nextT bytes cfg 0 = some (⟨0, 4294967295, true⟩, 0) := by
+    unfold nextT
+    rw [hnext]
+    rfl
+  refine ⟨hnext, hT, ?_, ?_⟩
+  · intro fuel
+    induction fuel with
+    | zero => rfl
+    | succ fuel ih =>
+      unfold enumAllT at ih ⊢
+      unfold itemsW
+      rw [hT]
+      simp only
+      rw [ih]
+  · have hend : next bytes cfg 4294967296 = none := by
+      have := C20_next_at_end bytes cfg
+      rwa [hsz] at this
+    rw [enumAll_eq_itemsFrom bytes cfg (bytes.size + 2) 0 (Nat.zero_le _) (by omega), itemsFrom_of_some hnext,
+      itemsFrom_of_none hend]
+
+/-- the hypotheses of `C20_offset_wraps_at_4GiB` are satisfiable: 2^32 − 1 letters and a NUL, default thresholds -/
+example :
+    let bytes : Bytes := (Array.replicate 4294967295 0x41).push 0
+    let cfg : Config := ⟨6, 3, true⟩
+    1 ≤ cfg.minLen ∧ 1 ≤ cfg.minLenNul ∧ cfg.minLenNul ≤ 255 ∧ bytes.size = 4294967296 ∧
+    (∀ j, j < 4294967295 → byteAt bytes j = 0x41) ∧ byteAt bytes 4294967295 = 0 := by
+  refine ⟨by decide, by decide, by decide, by simp, ?_, ?_⟩
+  · intro j hj
+    have hne : j ≠ 4294967295 := by omega
+    simp [byteAt, Array.getD_eq_getD_getElem?, Array.getElem?_push, hj, hne]
+  · simp [byteAt, Array.getD_eq_getD_getElem?, Array.getElem_push]
 
 /-- **Address.**  The address reported with a run is `base + offset of the run` whenever that sum
 is representable in the `u32` address field … -/
